@@ -56,6 +56,7 @@ def mutations(tree, pats, base_name):
         out.append((f"flip {p}", ["write", p, flipped]))
         out.append((f"append {p}", ["write", p, cont + b"+"]))
         out.append((f"truncate {p}", ["write", p, cont[:-3]]))
+        out.append((f"empty {p}", ["write", p, b""]))
         out.append((f"delete {p}", ["rm", p]))
         out.append((f"touch {p}", ["touch", p]))
     out.append(("add new.bin", ["write", "new.bin", b"new file in root"]))
